@@ -2,6 +2,7 @@ package sim
 
 import (
 	"crypto/sha256"
+	"encoding/base64"
 	"fmt"
 	"math/big"
 
@@ -10,6 +11,7 @@ import (
 	"github.com/zenon-network/go-zenon/common/types"
 	"github.com/zenon-network/go-zenon/vm/constants"
 	"github.com/zenon-network/go-zenon/vm/embedded/definition"
+	"github.com/zenon-network/go-zenon/vm/embedded/implementation"
 )
 
 // Model-guided layer: calls that are valid (or deliberately just invalid) in the current state,
@@ -72,6 +74,7 @@ func DefaultIntents() []Intent {
 		{"pillar-register", intentPillarRegister}, {"pillar-revoke", intentPillarRevoke}, {"pillar-update", intentPillarUpdate},
 		{"accelerator-project", intentProject}, {"accelerator-vote", intentVote},
 		{"accelerator-add-phase", intentAddPhase}, {"accelerator-update-phase", intentUpdatePhase},
+		{"swap-retrieve", intentSwapRetrieve}, {"pillar-register-legacy", intentRegisterLegacy},
 	}
 }
 
@@ -603,4 +606,70 @@ func phaseCall(h *Hist, method, pfx string) bool {
 func intentAddPhase(h *Hist) bool { return phaseCall(h, definition.AddPhaseMethodName, "aph") }
 func intentUpdatePhase(h *Hist) bool {
 	return phaseCall(h, definition.UpdatePhaseMethodName, "uph")
+}
+
+// legacySignature signs the swap message of the given kind for `addr` with legacy key i (sometimes for another
+// address, with the other kind's message, or with another key).
+func legacySignature(h *Hist, pfx string, i int, addr types.Address, pillar bool) (pubB64, sig string, ok bool) {
+	c := h.C
+	prv, pub := SwapKey(i)
+	pubB64 = base64.StdEncoding.EncodeToString(pub)
+	signFor, asPillar, signWith := addr, pillar, prv
+	switch c.Weighted(pfx+".sigFault", 8, 1, 1, 1) {
+	case 1:
+		signFor = h.user(pfx + ".sigOther") // a signature made out for another account (observed on the chain, replayed)
+	case 2:
+		asPillar = !asPillar // the signature of the other operation
+	case 3:
+		signWith, _ = SwapKey(i + 1)
+	}
+	var err error
+	if asPillar {
+		sig, err = implementation.SignLegacyPillarMessage(signFor, signWith, pubB64)
+	} else {
+		sig, err = implementation.SignRetrieveAssetsMessage(signFor, signWith, pubB64)
+	}
+	return pubB64, sig, err == nil
+}
+
+// intentSwapRetrieve: the holder of a legacy key claims its assets for one of its accounts (again and again).
+func intentSwapRetrieve(h *Hist) bool {
+	c := h.C
+	if len(h.W.Spec.Swap) == 0 {
+		return false
+	}
+	sw := h.W.Spec.Swap[c.Pick("swr.key", len(h.W.Spec.Swap))]
+	from := h.user("swr.from")
+	pub, sig, ok := legacySignature(h, "swr", sw.Key, from, false)
+	if !ok {
+		return false
+	}
+	return h.call(from, types.SwapContract, types.ZnnTokenStandard, big.NewInt(0), definition.ABISwap.PackMethodPanic(definition.RetrieveAssetsMethodName, pub, sig),
+		fmt.Sprintf("swap.RetrieveAssets(key %d)", sw.Key))
+}
+
+// intentRegisterLegacy: a legacy pillar slot is used (QSR deposited first or not, name free or not).
+func intentRegisterLegacy(h *Hist) bool {
+	c := h.C
+	var with []SwapSpec
+	for _, sw := range h.W.Spec.Swap {
+		if sw.Pillars > 0 {
+			with = append(with, sw)
+		}
+	}
+	if len(with) == 0 {
+		return false
+	}
+	sw := with[c.Pick("prl.key", len(with))]
+	from := h.depositor("prl.from", types.PillarContract, constants.PillarQsrStakeBaseAmount)
+	if h.Balance(from, types.ZnnTokenStandard).Cmp(constants.PillarStakeAmount) < 0 {
+		return false
+	}
+	pub, sig, ok := legacySignature(h, "prl", sw.Key, from, true)
+	if !ok {
+		return false
+	}
+	data := definition.ABIPillars.PackMethodPanic(definition.LegacyRegisterMethodName, fmt.Sprintf("VP-legacy-%d", c.Int("prl.name", 0, 4)), h.user("prl.prod"), h.user("prl.reward"),
+		uint8(c.Int("prl.give1", 0, 100)), uint8(c.Int("prl.give2", 0, 100)), pub, sig)
+	return h.call(from, types.PillarContract, types.ZnnTokenStandard, new(big.Int).Set(constants.PillarStakeAmount), data, fmt.Sprintf("pillar.RegisterLegacy(key %d)", sw.Key))
 }
